@@ -22,6 +22,9 @@ Rule family R9 (finite tables) + operand-order / stack-discipline consistency on
      copies the initial stack per call.
 Value-level equality over all operand values follows from these plus Python's own operator
 semantics and is not decided.
+
+Round 4: compile_expr is decided per class of the root expression; the stack machine with either
+end of the list as the top; the normalisers of C08 (the consumer gets the compiled callable).
 """
 import ast
 import copy
